@@ -533,3 +533,14 @@ Proof.
   unfold fetch_var. cbn [example set_ip invalidate set_example].
   destruct (nth_error ex i); reflexivity.
 Qed.
+
+(* no well-formedness needed: two genomes (garbage outside the active part
+   allowed) whose entry loci unfold to the same tree give the same result *)
+Lemma same_unfolding_same_result : forall src g1 g2 n1 n2 l1 l2 t st1 st2,
+  tree_of n1 g1 l1 = Some t -> tree_of n2 g2 l2 = Some t -> example st1 = example st2 ->
+  fst (run_locus_fuel src g1 n1 l1 st1) = fst (run_locus_fuel src g2 n2 l2 st2).
+Proof.
+  intros src g1 g2 n1 n2 l1 l2 t st1 st2 T1 T2 E.
+  rewrite (run_locus_fuel_den src g1 n1 l1 t st1 T1), (run_locus_fuel_den src g2 n2 l2 t st2 T2), E.
+  reflexivity.
+Qed.
